@@ -125,6 +125,45 @@ def _has_mutable(v):
     return bool(mutable_ids(v))
 
 
+def _walk_leaves(x, depth=0):
+    if depth > 50:
+        return
+    if isinstance(x, (str, bytes, bytearray, int, float)) or x is None:
+        yield x       # (also the instances of their subclasses)
+    elif isinstance(x, dict):
+        for k_, v_ in x.items():
+            yield from _walk_leaves(k_, depth + 1)
+            yield from _walk_leaves(v_, depth + 1)
+    elif isinstance(x, (list, tuple, set, frozenset)) or type(x).__name__ == "deque":
+        for y in x:
+            yield from _walk_leaves(y, depth + 1)
+    elif hasattr(x, "__dataclass_fields__") or (hasattr(x, "__dict__") and not isinstance(x, type)) or hasattr(type(x), "__slots__") and not isinstance(x, (str, bytes, int, float)):
+        names = list(getattr(x, "__dataclass_fields__", ())) or list(getattr(x, "__dict__", {})) or [n for c in type(x).__mro__ for n in getattr(c, "__slots__", ()) if isinstance(n, str)]
+        for n in names:
+            if hasattr(x, n):
+                yield from _walk_leaves(getattr(x, n), depth + 1)
+    else:
+        yield x
+
+
+def _nonfinite_text_captured(v, m):
+    """the output holds a non-finite float although the value holds none - and the value holds a *text* that float() reads as
+    inf / nan ("inf", "Infinity", "nan"): a str member's value captured by an earlier float member of a union (K-UNIONINF)"""
+    import math
+    out_bad = any(isinstance(x, float) and not math.isfinite(x) for x in _walk_leaves(m))
+    in_bad = any(isinstance(x, float) and not math.isfinite(x) for x in _walk_leaves(v))
+    if not out_bad or in_bad:
+        return False
+    for x in _walk_leaves(v):
+        if isinstance(x, str):
+            try:
+                if not math.isfinite(float(x)):
+                    return True
+            except ValueError:
+                pass
+    return False
+
+
 def check_value(p, v, col, variant):
     T, mat = p.T, p.mat
     vsrc = p.src(v)
@@ -157,7 +196,10 @@ def check_value(p, v, col, variant):
         try:
             json.dumps(m1, allow_nan=False)
         except Exception as e:  # noqa: BLE001
-            col.violation("json-encodable", case, f"json.dumps rejected {m1!r:.160}: {e}", bucket=type(e).__name__)
+            c_ = dict(case)
+            if _nonfinite_text_captured(v, m1):
+                c_["diag"] = "nonfinite-text-captured-by-float-member"
+            col.violation("json-encodable", c_, f"json.dumps rejected {m1!r:.160}: {e}", bucket=type(e).__name__)
     if k2 == "exc" or snapshot(m2) != snapshot(m1):
         col.violation("deterministic", case, f"second call gave {m2!r:.160}, first {m1!r:.160}")
     ids_v = mutable_ids(v)
